@@ -23,14 +23,15 @@ type vDriver struct {
 	ip       []byte
 	port     int
 	zone     string
-	reply    []byte   // SendUDP / SendTCP reply (nil with nil error = no reply expected)
-	err      error    // error returned instead of a reply
-	seq      [][]byte // BroadcastTo: datagrams arriving in order
-	consumed int      // BroadcastTo: index of the accepted datagram, -1 if none
-	replies  [][]byte // Broadcast: collected datagrams
-	events   [][]byte // Listen: datagrams fed to the handler
-	lstErr   error    // Listen: error returned by the driver
-	async    bool     // Listen: deliver from a goroutine through one reused receive buffer, like the real driver
+	reply    []byte    // SendUDP / SendTCP reply (nil with nil error = no reply expected)
+	err      error     // error returned instead of a reply
+	seq      [][]byte  // BroadcastTo: datagrams arriving in order
+	consumed int       // BroadcastTo: index of the accepted datagram, -1 if none
+	replies  [][]byte  // Broadcast: collected datagrams
+	events   [][]byte  // Listen: datagrams fed to the handler
+	lstErr   error     // Listen: error returned by the driver
+	async    bool      // Listen: deliver from a goroutine through one reused receive buffer, like the real driver
+	settle   func(int) // Listen (async): called after the handler has returned for datagram i
 }
 
 func (d *vDriver) record(method string, ip net.IP, port int, zone string, req []byte) {
@@ -99,12 +100,15 @@ func (d *vDriver) Listen(signal chan any, done chan any, handler func([]byte)) e
 	if d.async {
 		go func() {
 			buf := make([]byte, 2048)
-			for _, m := range d.events {
+			for i, m := range d.events {
 				if len(m) == 64 {
 					copy(buf[:64], m[:64]) // every datagram arrives in the same buffer
 					handler(buf[:64])
 				} else {
 					handler(m)
+				}
+				if d.settle != nil {
+					d.settle(i)
 				}
 			}
 			<-signal
@@ -121,7 +125,8 @@ func (d *vDriver) Listen(signal chan any, done chan any, handler func([]byte)) e
 
 // client not configured with any controller: every directed request is broadcast-to
 func vClient(d *vDriver) *uhppote {
-	return &uhppote{devices: map[uint32]Device{}, driver: d}
+	// (debug printing on or off: it must not change what is sent or returned)
+	return &uhppote{devices: map[uint32]Device{}, driver: d, debug: nondetBool("client.debug")}
 }
 
 // ---------------------------------------------------------------- protocol table helpers
@@ -303,4 +308,3 @@ func specIPEq(got []byte, want []byte) bool {
 	}
 	return false
 }
-
